@@ -12,25 +12,32 @@ package rootmulti
 
 //@ ghost sub.ver (Array Iface Int)
 //@ ghost sub.mounted (Array Iface Bool)
+//@ ghost sub.idver (Array Iface Int)
+//@ ghost sub.idhash (Array Iface Slice)
 //@ ghost wb.latest Int
 //@ ghost wb.cinfo Int
 //@ ghost disk.latest Int
 //@ ghost disk.cinfo (Array Int Bool)
 
-// C12/C13: every mounted substore is committed exactly once: all of them move from version-1 to version
+// C12/C13: every mounted substore is committed exactly once: each moves to its own next version (the substores' version
+// counters need not equal the multistore's: a store mounted later lags behind)
 // (different keys mount different stores)
 //@ func commitStores(version int64, storeMap map[types.StoreKey]types.CommitStore) (ci commitInfo)
 //@   props C12 C13
 //@   requires forall k1 Iface, k2 Iface :: has(storeMap, k1) && has(storeMap, k2) && k1 != k2 ==> storeMap[k1] != storeMap[k2]
-//@   requires forall k Iface :: has(storeMap, k) ==> sub.ver[storeMap[k]] == version - 1 && ifacenotnil(storeMap[k])
-//@   modifies sub.ver
+//@   requires forall k Iface :: has(storeMap, k) ==> ifacenotnil(storeMap[k])
+//@   modifies sub.ver, sub.idver, sub.idhash
 //@   loop 1 frame
 //@   loop 1 invariant 0 <= iterpos(1) && iterpos(1) <= iterlen(1) && fresh(storeInfos)
-//@   loop 1 invariant forall k Iface :: has(storeMap, k) ==> sub.ver[storeMap[k]] == ite(iteridx(1, k) < iterpos(1), version, version - 1)
+//@   loop 1 invariant forall j int :: 0 <= j && j < len(storeInfos) ==> (exists k Iface :: has(storeMap, k) && iteridx(1, k) < iterpos(1) && storeInfos[j].Core.CommitID.Version == sub.idver[storeMap[k]] && storeInfos[j].Core.CommitID.Hash == sub.idhash[storeMap[k]])
+//@   loop 1 invariant forall k Iface :: has(storeMap, k) ==> sub.ver[storeMap[k]] == old(sub.ver[storeMap[k]]) + ite(iteridx(1, k) < iterpos(1), 1, 0)
 //@   loop 1 invariant forall s Iface :: (forall k Iface :: has(storeMap, k) ==> storeMap[k] != s) ==> sub.ver[s] == old(sub.ver[s])
-//@   ensures [all] forall k Iface :: has(storeMap, k) ==> sub.ver[storeMap[k]] == version
+//@   ensures [all] forall k Iface :: has(storeMap, k) ==> sub.ver[storeMap[k]] == old(sub.ver[storeMap[k]]) + 1
 //@   ensures [others] forall s Iface :: (forall k Iface :: has(storeMap, k) ==> storeMap[k] != s) ==> sub.ver[s] == old(sub.ver[s])
 //@   ensures ci.Version == version
+// C12: what is recorded for a substore is the commit id that substore reported - its own version, not the multistore's
+// (they differ for a store mounted after the first commits: seed C12e)
+//@   ensures [recorded] forall j int :: 0 <= j && j < len(ci.StoreInfos) ==> (exists k Iface :: has(storeMap, k) && ci.StoreInfos[j].Core.CommitID.Version == sub.idver[storeMap[k]] && ci.StoreInfos[j].Core.CommitID.Hash == sub.idhash[storeMap[k]])
 
 // ASSUMED (amino encoding is outside the subset): the batch now carries s/<version> resp. s/latest = version.
 //@ assumed func setCommitInfo(batch dbm.Batch, version int64, cInfo commitInfo)
@@ -55,7 +62,7 @@ package rootmulti
 //@   requires forall k Iface :: has(rs.stores, k) ==> sub.mounted[rs.stores[k]] && ifacenotnil(rs.stores[k]) && sub.ver[rs.stores[k]] == rs.lastCommitID.Version
 //@   requires forall s Iface :: sub.mounted[s] ==> (exists k Iface :: has(rs.stores, k) && rs.stores[k] == s)
 //@   requires forall k1 Iface, k2 Iface :: has(rs.stores, k1) && has(rs.stores, k2) && k1 != k2 ==> rs.stores[k1] != rs.stores[k2]
-//@   modifies sub.ver, wb.latest, wb.cinfo, disk.latest, disk.cinfo, rs.lastCommitID
+//@   modifies sub.ver, sub.idver, sub.idhash, wb.latest, wb.cinfo, disk.latest, disk.cinfo, rs.lastCommitID
 //@   ensures [version] id.Version == old(rs.lastCommitID.Version) + 1
 //@   ensures [memory] rs.lastCommitID.Version == id.Version
 //@   ensures [durable] disk.latest == id.Version && disk.cinfo[id.Version] && (forall s Iface :: sub.mounted[s] ==> sub.ver[s] == id.Version)
